@@ -9,6 +9,12 @@ A *spec* is what replay files store.  Shape:
    "body": {kwargs} | [{kwargs}...], "footnote": {kwargs}|None, "source": {kwargs}|None,
    "figure": {"files":[{"name":..,"hex":..}], ...kwargs}}
 Tuples (per-row attribute vectors) are written {"__tuple__": [...]}.
+Other spellings of an attribute value that the constructors accept (array-likes) are written with a marker too:
+  {"__ndarray__": x}    numpy.array(x)         x a scalar (0-d array), a flat list (1-D) or a nested list (2-D)
+  {"__npscalar__": x}   the numpy scalar numpy.array([x])[0]   (numpy.str_ / int64 / float64 / bool_)
+  {"__series__": [..]}  polars.Series([..])
+  {"__frame__": [[..]]} polars.DataFrame(rows, orient="row")
+`plain(v)` gives the plain scalar / list / nested list that binds to the cells in the same way.
 """
 from __future__ import annotations
 
@@ -18,9 +24,64 @@ import tempfile
 from pathlib import Path
 
 
+MARKERS = ("__tuple__", "__ndarray__", "__npscalar__", "__series__", "__frame__")
+
+
+def _numbers(x):
+    """numeric payload of an array-like with one element type: if any number is a float, every number is (what
+    numpy does by itself; polars refuses mixed int / float input)"""
+    def flat(y):
+        if isinstance(y, list):
+            for z in y:
+                yield from flat(z)
+        else:
+            yield y
+
+    def conv(y):
+        if isinstance(y, list):
+            return [conv(z) for z in y]
+        return float(y) if isinstance(y, int) and not isinstance(y, bool) else y
+    return conv(x) if any(isinstance(y, float) for y in flat(x)) else x
+
+
+def _arraylike(v):
+    """the array-like object a spelling marker stands for (None: `v` carries no such marker)"""
+    if "__ndarray__" in v:
+        import numpy as np
+        return np.array(_numbers(v["__ndarray__"]))
+    if "__npscalar__" in v:
+        import numpy as np
+        return np.array([v["__npscalar__"]])[0]
+    if "__series__" in v:
+        import polars as pl
+        return pl.Series(_numbers(v["__series__"]))
+    if "__frame__" in v:
+        import polars as pl
+        return pl.DataFrame(_numbers(v["__frame__"]), orient="row")
+    return None
+
+
+def plain(v):
+    """the attribute value spelled with Python scalars and lists only, binding to the cells as the spelling `v`
+    does: a scalar (also a numpy scalar / 0-d array) applies to every cell, a flat list (also a 1-D array / Series)
+    is one value per column, a tuple one value per row ([[x], …]), a nested list (2-D array, frame) a matrix"""
+    if not isinstance(v, dict):
+        return v
+    if "__tuple__" in v:
+        return [[x] for x in v["__tuple__"]]
+    for k in ("__ndarray__", "__npscalar__", "__series__", "__frame__"):
+        if k in v:
+            return v[k]
+    return v
+
+
 def _untuple(v):
     if isinstance(v, dict) and "__tuple__" in v:
         return tuple(_untuple(x) for x in v["__tuple__"])
+    if isinstance(v, dict) and len(v) == 1:
+        a = _arraylike(v)
+        if a is not None:
+            return a
     if isinstance(v, list):
         return [_untuple(x) for x in v]
     if isinstance(v, dict):
